@@ -271,9 +271,64 @@ fn server_busy_peer_case(seed: u64, n: u64, ev: &mut Evidence) {
     }
 }
 
+/// A peer that sends requests and never reads the replies: the session blocks in a reply write. It
+/// must still end when it is told to (shutdown command, dropped handle = eviction or server shutdown).
+fn server_deaf_peer_case(seed: u64, n: u64, ev: &mut Evidence) {
+    let mut rng = Rng::sub(seed, 1071, n);
+    let framing = if n % 2 == 0 { Framing::Mbap } else { Framing::Rtu };
+    let level = (n / 2) % 36;
+    let decode = ((level % 4) as u8, ((level / 4) % 3) as u8, ((level / 12) % 3) as u8);
+    let pdu: Vec<u8> = match rng.below(3) {
+        0 => vec![3, 0, 0, 0, 125],
+        1 => vec![1, 0, 0, 0, 9],
+        _ => vec![3, 0, 0, 0, 0], // zero quantity, answered with an exception: the other write site
+    };
+    let frame = match framing {
+        Framing::Mbap => mbap_frame(7, 1, &pdu),
+        Framing::Rtu => rtu_frame(1, &pdu),
+    };
+    let drop_handle = rng.chance(1, 2);
+    let mut stores = BTreeMap::new();
+    stores.insert(1u8, Store::new(seed ^ n, 1, 0));
+    let mut commands = vec![];
+    if rng.chance(1, 2) {
+        commands.push((Duration::from_millis(2), Cmd::Decode(3, 2, 2)));
+    }
+    commands.push((Duration::from_millis(5), if drop_handle { Cmd::DropHandle } else { Cmd::Shutdown }));
+    let case = ServerCase {
+        framing,
+        stores,
+        policy: None,
+        // no EOF: the peer stays connected, it just does not read
+        script: vec![In::Chunk(frame)],
+        decode,
+        commands,
+    };
+    let obs = crate::server_run::run_server_case_io(&case, None, Some((crate::server_run::WRITE_BLOCKED, Duration::ZERO)));
+    ev.eval();
+    ev.count("server_inputs", 1);
+    ev.count("deaf_peer_sessions", 1);
+    let rep = json!({"n": n, "role": "server", "tag": "deaf_peer", "framing": framing.name(), "stop": if drop_handle { "handle_drop" } else { "shutdown" }, "pdu": hex(&pdu)});
+    if let Some(p) = &obs.panic {
+        ev.violation(format!("server_panic:{}", crate::util::panic_site(p)), format!("server session panicked with a peer that does not read: {p}"), rep);
+        return;
+    }
+    ev.class(format!("server|{}|decode{}|deaf_peer|{}", framing.name(), level, if obs.end_is_shutdown { "shutdown" } else if obs.timed_out { "never_ended" } else { "other" }));
+    if obs.timed_out || !obs.end_is_shutdown {
+        ev.violation(
+            format!("server_ignores_{}_while_blocked_in_a_reply_write:{}", if drop_handle { "handle_drop" } else { "shutdown" }, framing.name()),
+            format!("the peer sent a request and never read the reply; {} was issued 5 ms later; the session ended with {:?} (virtual-time watchdog fired: {})", if drop_handle { "handle drop" } else { "shutdown" }, obs.end, obs.timed_out),
+            rep,
+        );
+    }
+}
+
 pub fn server_case(seed: u64, n: u64, ev: &mut Evidence) {
     if n % 997 == 5 {
         return server_busy_peer_case(seed, n, ev);
+    }
+    if n % 499 == 7 {
+        return server_deaf_peer_case(seed, n, ev);
     }
     let mut rng = Rng::sub(seed, 107, n);
     let framing = if n % 2 == 0 { Framing::Mbap } else { Framing::Rtu };
@@ -1013,6 +1068,7 @@ pub fn run(args: &Args) -> i32 {
             ("server_inputs".into(), args.tier.pick(700_000, 20_000_000)),
             ("client_inputs".into(), args.tier.pick(350_000, 10_000_000)),
             ("busy_peer_sessions".into(), args.tier.pick(500, 15_000)),
+            ("deaf_peer_sessions".into(), args.tier.pick(1_000, 30_000)),
             ("followup_sentinels_answered".into(), args.tier.pick(700_000, 20_000_000)),
         ],
         min_classes: 500,
